@@ -43,7 +43,7 @@ type FieldKeyStore struct {
 }
 
 func (k *FieldKeyStore) GetKeyPair() (*rsa.PrivateKey, []byte, error) {
-	k.Calls++
+	// stateless: called concurrently by the tasks of the concurrency engine
 	if k.Err != nil {
 		return nil, nil, k.Err
 	}
